@@ -9,7 +9,7 @@ cd /verif
 rm -rf /tmp/evidence.keep.$$; cp -r /verif/evidence /tmp/evidence.keep.$$
 trap 'rm -rf /verif/evidence; cp -r /tmp/evidence.keep.$$ /verif/evidence; rm -rf /tmp/evidence.keep.$$; git -C /repo worktree remove --force '$wt EXIT
 for id in $ids; do
-  prop=${id:0:3}
+  prop=${PROP:-${id:0:3}}
   if ! git -C $wt apply --check /verif/seeded/$id/patch.diff 2>/dev/null; then echo "$id: patch does not apply"; continue; fi
   git -C $wt apply /verif/seeded/$id/patch.diff
   out=$(VERIF_REPO=$wt ./check $prop $tier 2>&1); rc=$?
